@@ -109,6 +109,7 @@ def step (d : DState) (line : String) : DState × String :=
       | none => bad
   | ["dup"] => let d' := d.setSt (dup d.st); (d', "rc=ok " ++ showObs d'.t)
   | ["xml"] => let d' := d.setSt (xmlReload d.strat d.st); (d', "rc=ok " ++ showObs d'.t)
+  | ["xmlv2"] => let d' := d.setSt (xmlReload d.strat d.st); (d', "rc=ok " ++ showObs d'.t)     -- same transfer through the v2 format
   | ["refresh"] => let d' := d.setSt (refresh d.strat d.st); (d', "rc=ok " ++ showObs d'.t)
   | ["by", cs, fl] => match parseCs cs, parseNat fl with
       | some cs, some fl => (d, "r=" ++ resStr (getByCpuset d.st cs fl))
